@@ -56,9 +56,9 @@ CLAIMS = {
    note="In a functional model `an error carries no new state` holds by construction, so the theorems are consequences rather than the tie to the code; the tie is the correspondence (and C14 for the reader). Axioms: propext, Quot.sound.",
    design="DESIGN.md §4 C05", technique="Lean 4 model with state returned only on success + fault-injection correspondence"),
  "C13": dict(
-   text="Lean 4 theorems: a picture buffer is allocated with luma w*h, chroma ceil(w/2)*ceil(h/2), chroma row ceil(w/2); for every w, h >= 1 and quantizer 1..31, deblocking each plane with the regenerated table's strength and converting to RGBA is `ok` with exactly 4*w*h bytes (composition of C16.no_panic and C08.no_panic_and_length, whose preconditions are those size relations). Real pipeline decode -> deblock x3 -> rgba on every size of a dense range tied to the model.",
-   note="PARTIAL: that gather and the IDCT preserve the plane sizes (they write in place) is modelled and covered by correspondence, not yet a theorem. Axioms: propext, Classical.choice, Quot.sound.",
-   design="DESIGN.md §4 C13", technique="Lean 4 proof (composition of the post-processing totality theorems) + pipeline correspondence"),
+   text="Lean 4 theorems: after ANY history of decode calls (successful or failed) and clean-ups on a fresh decoder, the picture reported as last has both dimensions >= 1 and planes of exactly luma w*h, chroma ceil(w/2)*ceil(h/2), chroma row ceil(w/2), holding bytes (invariant of the whole decode path: allocation, motion compensation incl. fast and interpolating paths, the three inverse transforms and the state update preserve it); hence for every quantizer 1..31 deblocking each plane with the regenerated table's strength and converting to RGBA is `ok` with exactly 4*w*h bytes (composition with C16.no_panic and C08.no_panic_and_length). Real pipeline decode -> deblock x3 -> rgba on every size of a dense range tied to the model.",
+   note="Complete at model level. Axioms: propext, Classical.choice, Quot.sound. usize arithmetic on unbounded Nat.",
+   design="DESIGN.md §4 C13", technique="Lean 4 proof (plane-shape invariant over the whole decode path by induction over histories) + pipeline correspondence"),
  "C15": dict(
    text="Lean 4 theorems: once the picture's macroblocks are decoded the macroblock loop stops without reading a further bit, whatever follows; the position after a successful call is the loop's final cursor. Concatenated streams (2..4 pictures, all flavours, paddings 0..7) are decoded call after call by the real decoder and compared with the model and with one reader per picture.",
    note="PARTIAL: no theorem for whole concatenated streams (needs the picture-level round trip of C02/C03). Axioms: propext, Quot.sound.",
